@@ -134,6 +134,10 @@ func c10Table() []watchCase {
 
 // a command that the server rejects when it is received (unknown, or wrong arity)
 func (g *Gen) rejectedOp(c int) Op {
+	if g.chance(0.3) {
+		// the transaction commands themselves with a wrong number of arguments
+		return mkOp(c, [][]string{{g.kw("multi"), "x"}, {g.kw("exec"), "x"}, {g.kw("discard"), "x", "y"}, {g.kw("watch")}, {g.kw("unwatch"), "x"}, {g.kw("multi"), ""}}[g.r.Intn(6)]...)
+	}
 	switch g.r.Intn(4) {
 	case 0:
 		return mkOp(c, "NOSUCHCMD", g.key())
@@ -392,6 +396,23 @@ func init() {
 				default:
 					ops = append(ops, g.dataOp(c))
 				}
+			}
+			if g.chance(0.35) {
+				// one transaction that walks through several databases: every queued command runs in the
+				// database selected by the queued SELECTs before it, and the connection ends in the last one
+				c := 1 + g.r.Intn(nc)
+				ops = append(ops, mkOp(c, "DISCARD"), mkOp(c, "SELECT", g.pick("0", "1", "2")), mkOp(c, "MULTI"))
+				for j := 0; j < 2+g.r.Intn(3); j++ {
+					ops = append(ops, mkOp(c, "SELECT", g.pick("0", "1", "2", "3", "15", "16")))
+					for x := 0; x < 1+g.r.Intn(2); x++ {
+						ops = append(ops, [](Op){mkOp(c, "SET", g.key(), fmt.Sprintf("tx%d", j)), mkOp(c, "DBSIZE"), mkOp(c, "RPUSH", g.key(), "e"), mkOp(c, "KEYS", "*"), mkOp(c, "DEL", g.key())}[g.r.Intn(5)])
+					}
+				}
+				ops = append(ops, mkOp(c, g.pick("EXEC", "EXEC", "EXEC", "DISCARD")), mkOp(c, "DBSIZE"), mkOp(c, "KEYS", "*"))
+				ops = append(ops, mkOp(c, "SELECT", "3"))
+				ops = append(ops, g.observeAll(c)...)
+				ops = append(ops, mkOp(c, "SELECT", "15"))
+				ops = append(ops, g.observeAll(c)...)
 			}
 			for c := 1; c <= nc+1; c++ { // nc+1: a connection opened after everything
 				ops = append(ops, mkOp(c, "DISCARD"))
